@@ -15,7 +15,7 @@ CONSTANTS
   Fam = {"op", "rec", "copy", "close"}
   OpShapes <- OpsHttpRec
   MaxConn = 2
-  MaxSteps = 6
+  MaxSteps = 7
   GenDepth = 0
   Advs = {0, 2}
   Lens <- LensSmall
